@@ -40,6 +40,10 @@ EXPLANATION += ' Added: (R7) variants a writer does not implement and a missing 
 # --- metadata added for batch 8
 EXPLANATION += ' Added: (R10) the selection decision table (an explicit format is final: no fall-back to the file name), before anything is written. R5 has rows for ghost centres and for shells listed out of atom order.'
 # --- end metadata batch 8
+# --- metadata added after the round-2 refactoring twins
+
+EXPLANATION += ' R8 follows the operation handed to _check_required through a local.'
+# --- end metadata round-2 twins
 TRUSTED = [
     "CPython ast parser", "open(name, 'w') is the only truncation point (POSIX)",
     "with-statement closes the file on every exit", "whitelisted total externals do not raise",
